@@ -147,14 +147,32 @@ Expected(D0, H, w, r, v) ==
 (* Embeddings: the record alone, between two bytes in a tuple (headerless   *)
 (* parent), as the chunk-1 field of a record between two chunk-0 bytes, and *)
 (* twice in a vector inside such a chunk.                                   *)
-Embeddings == {"Top", "InTuple", "InChunk", "InVecInChunk"}
+\* ... and as a constructor of an enum (next to a unit constructor): the record of a constructor evolves like a
+\* record type.  "AsVariant": a constructor with named fields; "AsTupleVariant": a positional one, whose fields are
+\* called field0, field1, .. after their positions (that is the name the steps have to use, too).
+Embeddings == {"Top", "InTuple", "InChunk", "InVecInChunk", "AsVariant", "AsTupleVariant"}
+PosName(D, n) == IF \E i \in 1..Len(D.fields) : D.fields[i].n = n
+                 THEN VariantFieldName((CHOOSE i \in 1..Len(D.fields) : D.fields[i].n = n) - 1) ELSE n
+AsVariantT(D, shape) ==
+  EnumT(<<VariantT(<<65, 97>>, "unit", <<>>, <<>>, FALSE),
+          VariantT(<<86>>, shape,
+                   [i \in 1..Len(D.fields) |-> IF shape = "tuple" THEN [D.fields[i] EXCEPT !.n = VariantFieldName(i - 1)] ELSE D.fields[i]],
+                   [j \in 1..Len(D.steps) |-> IF shape = "tuple" THEN [D.steps[j] EXCEPT !.n = PosName(D, @)] ELSE D.steps[j]], FALSE)>>, FALSE)
+\* positional names are stable between two versions when no field was ever dropped from the declaration and the
+\* fields they share sit at the same positions (fields were only appended)
+PositionsStable(DW, DR) ==
+  /\ \A D \in {DW, DR} : \A j \in 1..Len(D.steps) : D.steps[j].op # "Removed"
+  /\ \A i \in 1..Len(DW.fields) : \A j \in 1..Len(DR.fields) : DW.fields[i].n = DR.fields[j].n => i = j
 EmbT(emb, D) ==
   CASE emb = "Top" -> D
+    [] emb = "AsVariant" -> AsVariantT(D, "struct")
+    [] emb = "AsTupleVariant" -> AsVariantT(D, "tuple")
     [] emb = "InTuple" -> [k |-> "tup", es |-> <<U8, D, U8>>]
     [] emb = "InChunk" -> [k |-> "inchunk", e |-> D]
     [] emb = "InVecInChunk" -> [k |-> "inchunk", e |-> [k |-> "vec", e |-> D]]
 EmbV(emb, x) ==
   CASE emb = "Top" -> x
+    [] emb \in {"AsVariant", "AsTupleVariant"} -> <<21, 2>> \o Tail(x)
     [] emb = "InTuple" -> <<10, <<0, 7>>, x, <<0, 9>>>>
     [] emb = "InChunk" -> <<20, <<0, 7>>, x, <<0, 9>>>>
     [] emb = "InVecInChunk" -> <<20, <<0, 7>>, <<8, x, x>>, <<0, 9>>>>
